@@ -356,6 +356,18 @@ Qed.
 
 Fixpoint zsum (l : list Z) : Z := match l with [] => 0 | x :: r => x + zsum r end.
 
+Lemma zsum_nonneg l : Forall (fun x => 0 <= x) l -> 0 <= zsum l.
+Proof. induction 1; simpl; lia. Qed.
+
+Lemma cumsum_bounds l : forall a, Forall (fun x => 0 <= x) l ->
+  Forall (fun p => a <= p <= a + zsum l) (a :: cumsum_from a l).
+Proof.
+  induction l as [|x l IH]; intros a Hl; simpl.
+  - constructor; [lia|constructor].
+  - inversion Hl; subst. pose proof (zsum_nonneg l H2). constructor; [lia|].
+    specialize (IH (a + x) H2). eapply Forall_impl; [|exact IH]. intros p Hp. simpl in Hp. lia.
+Qed.
+
 Lemma cumsum_last l : forall a d, nth (length l) (a :: cumsum_from a l) d = a + zsum l.
 Proof.
   induction l as [|x l IH]; intros a d; simpl; [lia|].
